@@ -30,7 +30,11 @@ def run(tier):
             ("array-member-element", "findings/C01-array-member-element.pn", "exit=5 out="),
             ("call-convention", "findings/C03-call-convention.pn", "exit=3 out="),
             ("constant-named-main", "findings/C03-constant-named-main.pn", "exit=7 out="),
-            ("member-named-like-constant", "findings/C01-member-named-like-constant.pn", "exit=43 out=")]
+            ("member-named-like-constant", "findings/C01-member-named-like-constant.pn", "exit=43 out="),
+            # a private constant / function named like a C function the generated code calls (write, snprintf, abort): D77
+            ("constant-named-write", "findings/C01-constant-named-write.pn", "exit=0 out=x\\n"),
+            ("function-named-write", "findings/C01-function-named-write.pn", "exit=0 out=y=5\\n"),
+            ("function-named-snprintf", "findings/C01-function-named-snprintf.pn", "exit=0 out=y=8 z=101\\n")]
     rr = C.run_harness("exec", [(rn, open(os.path.join(C.VERIF, f)).read()) for rn, f, _ in regs], ck.work + "/regress", timeout=600)
     for rn, f, want in regs:
         got = rr.get(rn, ["missing"])
